@@ -789,6 +789,9 @@ func (f *fuzzEnv) nearValid() sdk.Msg {
 				if f.r.Intn(8) != 0 {
 					f.mutateOneLeaf(reflect.ValueOf(op.msg).Elem())
 				}
+				if f.r.Intn(6) == 0 {
+					f.sameAccountTwice(reflect.ValueOf(op.msg).Elem())
+				}
 				return op.msg
 			}
 		}
@@ -900,4 +903,34 @@ func (f *fuzzEnv) mutateOneLeaf(v reflect.Value) {
 	l := leaves[f.r.Intn(len(leaves))]
 	f.class("nv:" + l.name)
 	f.fillValue(l.v, l.name, 3)
+}
+
+// sameAccountTwice makes the second address field of a message name the same account as the
+// first one - in the same or in the other valid spelling (upper-case bech32) - and half of the
+// time lets both name an account that does not exist.
+func (f *fuzzEnv) sameAccountTwice(v reflect.Value) {
+	var addrs []reflect.Value
+	for i := 0; i < v.NumField(); i++ {
+		if fl := v.Field(i); fl.Kind() == reflect.String && fl.CanSet() {
+			if _, err := sdk.AccAddressFromBech32(fl.String()); err == nil {
+				addrs = append(addrs, fl)
+			}
+		}
+	}
+	if len(addrs) < 2 {
+		return
+	}
+	a := addrs[0].String()
+	if f.r.Intn(2) == 0 {
+		a = chain.NewKey(fmt.Sprintf("nobody-%d", f.r.Intn(1000))).Bech()
+	}
+	spell := func(s string) string {
+		if f.r.Intn(2) == 0 {
+			return strings.ToUpper(s)
+		}
+		return s
+	}
+	addrs[0].SetString(spell(a))
+	addrs[1].SetString(spell(a))
+	f.class("same-account-twice")
 }
